@@ -78,13 +78,17 @@ class MatplotlibLegendState(State):
         MatplotlibLegendState.location.set_choices(self, VALID_LOCATIONS)
 
         super().__init__(*args, **kwargs)
-        self._set_color_choices()
+        self._set_color_choices(**kwargs)
 
-    def _set_color_choices(self):
+    def _set_color_choices(self, frame_color=None, text_color=None, **kwargs):
         from glue.config import settings
 
-        self.frame_color = settings.BACKGROUND_COLOR
-        self.text_color = settings.FOREGROUND_COLOR
+        # Use the colors from the settings unless colors were specified
+        # explicitly (e.g. when restoring a saved state)
+        if frame_color is None:
+            self.frame_color = settings.BACKGROUND_COLOR
+        if text_color is None:
+            self.text_color = settings.FOREGROUND_COLOR
 
     @property
     def edge_color(self):
